@@ -8,7 +8,7 @@ import re
 from ..cfg import build_cfg, calls_in, node_calls
 from ..core import Ctx, property_info, rule, share
 from ..model import AnalysisError, FuncInfo, const_str, walk_no_nested
-from ..q import Dispatch, L, call_name_of, dep_texts, dict_literals, flow_conditions, flows, A, asrc, enum_members, is_self_attr, kwarg, stores, unparse
+from ..q import Dispatch, L, call_name_of, control_deps, dep_texts, expand, dict_literals, flow_conditions, flows, A, asrc, enum_members, is_self_attr, kwarg, stores, unparse
 from .c12 import renumbering_is_last
 
 FIL = "xsdata.formats.dataclass.filters:Filters"
@@ -104,7 +104,14 @@ def metadata_vocabulary(ctx: Ctx) -> None:
         ctx.ob(f"documented key `{k}` is read by the runtime", k in reads, at=ctx.repo.func(f"{BLD}.build"), construct=f"doc {k}", msg="documented key has no effect")
     # `type` values: attr.xml_type comes from xml_type_map (R3); None => default kind
     fmd = ctx.repo.func(f"{FIL}.filter_metadata")
-    ctx.ob("filter_metadata drops exactly None and False values (the runtime defaults)", A("return{_:_for_,_in_.items()if_isnotNoneand_isnotFalse}") in asrc(fmd), at=fmd, construct="filter_metadata", msg="a meaningful value is dropped (e.g. 0 or '')")
+    gf = build_cfg(fmd.node)
+    conds = [t.ast for t in gf.nodes if t.kind == "test"]
+    for comp in [x for x in walk_no_nested(fmd.node) if isinstance(x, ast.comprehension)]:
+        for c in comp.ifs:
+            conds += list(c.values) if isinstance(c, ast.BoolOp) and isinstance(c.op, ast.And) else [c]
+    dropped = {repr(c.comparators[0].value) for c in conds if isinstance(c, ast.Compare) and len(c.ops) == 1 and isinstance(c.ops[0], (ast.IsNot, ast.Is)) and isinstance(c.comparators[0], ast.Constant)}
+    other = [c for c in conds if not (isinstance(c, ast.Compare) and len(c.ops) == 1 and isinstance(c.ops[0], (ast.IsNot, ast.Is)) and isinstance(c.comparators[0], ast.Constant))]
+    ctx.ob("filter_metadata drops exactly None and False values (the runtime defaults) - by identity, never by truthiness", dropped == {"None", "False"} and not other, at=fmd, construct="filter_metadata", msg=f"a meaningful value is dropped (e.g. 0 or ''): filters on {sorted(dropped)} + {len(other)} other conditions")
 
 
 @rule("C02.R2")
@@ -136,7 +143,8 @@ def restriction_vocabulary(ctx: Ctx) -> None:
     for k in sorted(mkeys):
         ctx.ob(f"Restrictions.merge key `{k}` is a Restrictions field", k in fields_, at=mg, construct=f"merge {k}", msg="merge touches an unknown attribute")
     fe = ctx.repo.func("xsdata.codegen.models:Restrictions.from_element")
-    ctx.ob("Restrictions.from_element = cls(**element.get_restrictions())", A("returncls(**_.get_restrictions())") in asrc(fe), at=fe, construct="from_element", msg="restriction construction changed")
+    ok = any(isinstance(c.func, ast.Name) and c.func.id == "cls" and any(k.arg is None and any(isinstance(x, ast.Call) and call_name_of(x) == "get_restrictions" for x in ast.walk(expand(fe.node, k.value))) for k in c.keywords) for c in calls_in(fe.node))
+    ctx.ob("Restrictions.from_element = cls(**element.get_restrictions())", ok, at=fe, construct="from_element", msg="restriction construction changed")
     # occurrence tables of attributes (use) equal XSD
     at = ctx.repo.func("xsdata.models.xsd:Attribute.get_restrictions")
     d = Dispatch(at.node, is_subject=lambda e: unparse(e) == "self.use")
@@ -169,7 +177,7 @@ def tag_kind_table(ctx: Ctx) -> None:
     for e in (gt.elts if isinstance(gt, ast.Tuple) else []):
         ctx.ob(f"GLOBAL_TYPES member {unparse(e)} is a Tag constant", unparse(e).split(".")[-1] in tags, at=m, node=e, construct=f"global {unparse(e)}", msg="unknown tag")
     xt = ctx.repo.cls("xsdata.codegen.models:Attr").methods.get("xml_type")
-    ctx.ob("Attr.xml_type = xml_type_map.get(self.tag) (None = Text)", xt is not None and A("returnxml_type_map.get(self.tag)") in asrc(xt), at=xt or m, construct="xml_type lookup", msg="kind lookup changed")
+    ctx.ob("Attr.xml_type = xml_type_map.get(self.tag) (None = Text)", xt is not None and any(unparse(c.func) == "xml_type_map.get" and c.args and unparse(c.args[0]) == "self.tag" for c in calls_in(xt.node)), at=xt or m, construct="xml_type lookup", msg="kind lookup changed")
 
 
 ALLOWED_DIRECT = {
@@ -283,8 +291,14 @@ def attribute_namespace_agreement(ctx: Ctx) -> None:
     ctx.ob("substitution attrs are created with un-substituted types (so their own substitution groups are expanded too)", ok, at=cs, construct="substitution fresh type",
            msg="a member whose head is itself a member of another group is never expanded: valid <t:square> children are rejected")
     pa = ctx.repo.func("xsdata.codegen.handlers.add_attribute_substitutions:AddAttributeSubstitutions.process_attribute")
-    ctx.ob("process_attribute recurses into every inserted substitution", A("_.attrs.insert(_,_);self.process_attribute(_,_)") in asrc(pa), at=pa, construct="substitution recursion", msg="substitutions of substitutions are not added")
-    ctx.ob("process_attribute marks a type substituted only after testing the flag", A("if_.substituted:;continue;_.substituted=True") in asrc(pa), at=pa, construct="substituted flag", msg="flag protocol changed")
+    gp = build_cfg(pa.node)
+    ins = [(n, c) for n in gp.stmts() for c in node_calls(n) if isinstance(c.func, ast.Attribute) and c.func.attr == "insert" and unparse(c.func.value).endswith(".attrs") and len(c.args) == 2]
+    rec = [(n, c) for n in gp.stmts() for c in node_calls(n) if unparse(c.func) == "self.process_attribute" and len(c.args) == 2]
+    ok = bool(ins) and bool(rec) and all(any(unparse(rc.args[1]) == unparse(ic.args[1]) and rn.id in gp.reachable([in_.id]) and gp.must_pass(in_.id, gp.exit, [rn.id] + [x.id for x in gp.nodes if x.kind == "for"], normal_only=True) for rn, rc in rec) for in_, ic in ins)
+    ctx.ob("process_attribute recurses into every inserted substitution", ok, at=pa, construct="substitution recursion", msg="substitutions of substitutions are not added")
+    marks = [st for st, tgt, v in stores(pa.node) if isinstance(tgt, ast.Attribute) and tgt.attr == "substituted" and isinstance(v, ast.Constant) and v.value is True]
+    ok = bool(marks) and all(any(t == "_.substituted" and not pol for t, pol, _ in control_deps(pa, st)) for st in marks)
+    ctx.ob("process_attribute marks a type substituted only after testing the flag (already substituted types are skipped)", ok, at=pa, construct="substituted flag", msg="flag protocol changed")
 
 
 @rule("C02.R7")
